@@ -79,10 +79,27 @@ CheckEvent(e) ==
                                    /\ StatusOK("GetStatus", dec, e.status), e.status, dec)
   /\ Judge("C10", "Stable", e.later = e.status, e.later, e.status)
 
+\* C09 for discovery: calls made while datagrams keep arriving through the deadline return within T (plus slack, never
+\* early) and leave no goroutine or socket behind
+CheckQuiesce(e) ==
+  /\ Judge("C09", "Released", e.goroutines_after <= e.goroutines_before /\ e.fds_after <= e.fds_before,
+            <<e.goroutines_before, e.goroutines_after, e.fds_before, e.fds_after>>, "no more goroutines or sockets than before")
+  /\ Judge("C09", "BoundedReturn", e.elapsed_max_ms * 100 <= e.T_ms * 150, <<e.elapsed_max_ms, e.T_ms>>, "within T + slack")
+  /\ Judge("C09", "NoEarlyGiveUp", e.elapsed_min_ms >= e.T_ms - 2, <<e.elapsed_min_ms, e.T_ms>>, "not before T")
+
+\* C08 at the schedule "A's transport has returned, B runs to completion, only then does A look at its bytes"
+\* (Transport!Finish(a) ... Return(a)): each call's result is the interpretation of the reply to its OWN request
+CheckGate(e) ==
+  /\ Judge("C04", "NoPanic", e.ret.t # "panic", e.ret, "no panic")
+  /\ Judge("C08", "OwnReply", e.ret.t # "panic" /\ ResultOK(e.op, e.a, e.cfg, e.delivered[1].b, e.ret),
+            <<e.gate, e.ret>>, DecodeFields(Rsp[e.op], e.delivered[1].b))
+
 \* calls whose arguments lie beyond what the projection can express (year 20000, HH:mm 100:100, ...)
 \* are judged for totality only
 Check(e) == IF e.op = "W26Intervals" THEN CheckW26(e)
             ELSE IF e.op = "Event" THEN CheckEvent(e)
+            ELSE IF e.op = "Quiesce" THEN CheckQuiesce(e)
+            ELSE IF Has(e, "gate") THEN CheckGate(e)
             ELSE IF Has(e.a, "extreme") THEN CheckNoPanic(e)
             ELSE CheckSent(e) /\ CheckReject(e) /\ CheckSegmentRule(e) /\ CheckNoPanic(e) /\ CheckResult(e) /\ CheckRoute(e) /\ CheckDiscovery(e)
 
